@@ -81,7 +81,7 @@ PROPS["C15"] = dict(
 PROPS["C01"] = dict(
     harness="p_sem",
     phases=dict(quick=[rc(8, 1200), rc(8, 6000, flavour="fast", seed_offset=100)],
-                thorough=[rc(16, 15000), rc(16, 150000, flavour="fast", seed_offset=100)]),
+                thorough=[rc(16, 15000), rc(16, 70000, flavour="fast", seed_offset=100)]),
     rule=("cases: typed random programs (0-5 program definitions incl. redefinition and OUT=parameter, nested LOOP/WHILE, labels and "
           "forward/backward GOTO / IF-GOTO also into and out of loop bodies, nested calls as arguments, id+int / id-int sugar, a library "
           "of user macros with native meaning: <V>&<V>, <V>*<V>, f(args), IF-THEN-ELSE, SWAP, REPEAT), printed in free layout (all keyword "
@@ -104,7 +104,7 @@ PROPS["C01"] = dict(
 PROPS["C07"] = dict(
     harness="p_sem",
     phases=dict(quick=[rc(8, 800), rc(8, 5000, flavour="fast", seed_offset=100)],
-                thorough=[rc(16, 10000), rc(16, 120000, flavour="fast", seed_offset=100)]),
+                thorough=[rc(16, 10000), rc(16, 60000, flavour="fast", seed_offset=100)]),
     rule=("cases: typed random programs without user macros (builtin +/- sugar allowed) printed one statement per line (labels on their "
           "statement's line, header and END on own lines), 1-4 files split at line boundaries with nested includes. Oracle: the reference "
           "interpreter emits the expected stop sequence (statement lines before execution, LOOP/WHILE header once per entry, END once per "
@@ -123,7 +123,7 @@ PROPS["C07"] = dict(
 PROPS["C19"] = dict(
     harness="p_sem",
     phases=dict(quick=[rc(8, 800), rc(8, 5000, flavour="fast", seed_offset=100)],
-                thorough=[rc(16, 10000), rc(16, 100000, flavour="fast", seed_offset=100)]),
+                thorough=[rc(16, 10000), rc(16, 50000, flavour="fast", seed_offset=100)]),
     rule=("cases: typed random programs, half of them with a forced call inside a loop, run instruction by instruction (<=30000). Oracle "
           "(invariant via read-only hook): after every instruction the frames of the live activations are contiguous in call order from "
           "word 0 and the data memory size equals the sum of their sizes. Non-trivial: run with >=3 returns; distinct by content hash."),
@@ -137,7 +137,7 @@ PROPS["C19"] = dict(
 PROPS["C20"] = dict(
     harness="p_sem",
     phases=dict(quick=[rc(8, 2500), rc(8, 8000, flavour="fast", seed_offset=100)],
-                thorough=[rc(16, 40000), rc(16, 150000, flavour="fast", seed_offset=100)]),
+                thorough=[rc(16, 40000), rc(16, 70000, flavour="fast", seed_offset=100)]),
     rule=("cases: (a) typed random programs with constants near 2^31 (largest accepted literal, x+c with large c, helper-program doubling), "
           "run twice instruction by instruction under UBSan; (b) numeric literals of 1-40 digits (within 3 of 2^31-1, 32-bit wrapping values, "
           "long digit strings) in every literal position: assignment, IF constant, call argument, +/- sugar constant, macro priority, $n. "
@@ -155,7 +155,7 @@ PROPS["C20"] = dict(
 PROPS["C16"] = dict(
     harness="p_sem",
     phases=dict(quick=[rc(6, 800), rc(6, 5000, flavour="fast", seed_offset=100), rc(4, 3000, harness="p_accept", seed_offset=200)],
-                thorough=[rc(12, 10000), rc(12, 100000, flavour="fast", seed_offset=100), rc(8, 60000, harness="p_accept", seed_offset=200)]),
+                thorough=[rc(12, 10000), rc(12, 50000, flavour="fast", seed_offset=100), rc(8, 60000, harness="p_accept", seed_offset=200)]),
     rule=("cases: (accept direction) typed random programs, two thirds of them using neither WHILE nor GOTO with LOOP bodies that assign "
           "their own bound. Oracle: the EXEC call graph of the emitted code is acyclic, the activation stack never exceeds definitions+1 "
           "after any instruction, LOOP-only programs halt within the budget proportional to the reference step count and end in the "
@@ -196,7 +196,7 @@ PROPS["C04"] = dict(
 PROPS["C03"] = dict(
     harness="p_code",
     phases=dict(quick=[rc(8, 1200), rc(8, 6000, flavour="fast", seed_offset=100)],
-                thorough=[rc(16, 15000), rc(16, 150000, flavour="fast", seed_offset=100)]),
+                thorough=[rc(16, 15000), rc(16, 70000, flavour="fast", seed_offset=100)]),
     rule=("cases: every successfully compiled generated program (typed generator incl. user macros, free layout, 1-3 files) plus unusual "
           "declarations: repeated parameter names (25% of cases allow them), OUT = parameter, no parameters, redefined names. Oracle (static, "
           "all paths): bytecode verifier written from instr.hpp: PREPARE first / HALT last, routine extents from EXEC entries, jumps stay "
@@ -215,7 +215,7 @@ PROPS["C03"] = dict(
 PROPS["C08"] = dict(
     harness="p_code",
     phases=dict(quick=[rc(8, 1200), rc(8, 6000, flavour="fast", seed_offset=100)],
-                thorough=[rc(16, 15000), rc(16, 150000, flavour="fast", seed_offset=100)]),
+                thorough=[rc(16, 15000), rc(16, 70000, flavour="fast", seed_offset=100)]),
     rule=("cases: generated programs in free layout (several statements per line, program headers sharing a line with other code, "
           "comments), split over 1-5 files at arbitrary token boundaries incl. nested includes, half of them with user macros defined "
           "in the main or in an included file. Oracle: potential_breaks and line_info are exact inverses without duplicates or empty "
@@ -233,7 +233,7 @@ PROPS["C08"] = dict(
 
 PROPS["C02"] = dict(
     harness="p_total",
-    phases=dict(quick=[enum(8), rc(8, 2500)], thorough=[enum(16), rc(16, 80000), fuzz(12, 420, max_len=600)]),
+    phases=dict(quick=[enum(8), rc(8, 2500)], thorough=[enum(16), rc(16, 30000), fuzz(12, 420, max_len=600)]),
     rule=("cases: arbitrary file maps and main names: 1-4-edit token neighbours (incl. DEFINE/include tokens) of generated programs with "
           "macros and several files, token soup, raw bytes, the named truncated constructs (argument list ending in a comma, header "
           "without ports, DEFINE cut off, stray $n/#n/template tokens, out-of-range numbers) alone or embedded in soup, broken file maps "
